@@ -1148,6 +1148,7 @@ func (h *hCtx) sendConfirm(c *chainT, k keyT, bridger, ext, sigText string, sign
 		sigBytes = b
 		sigField = hx.Hex(b)
 	}
+	h.emitVBasic(c.name, k, bridger, ext, sigText)
 	type vb interface{ ValidateBasic() error }
 	direct := false
 	if err := msg.(vb).ValidateBasic(); err != nil {
@@ -2080,6 +2081,7 @@ func (h *hCtx) realTxs() {
 	oracle := helpers.GenAccAddress()
 	bridgerY := s.AddTestSigner(1000)
 	attackerX := s.AddTestSigner(1000)
+	bridgerZ := s.AddTestSigner(1000) // bridger of the oracle of case 4a
 	k.SetOracle(s.Ctx, types.Oracle{OracleAddress: oracle.String(), BridgerAddress: bridgerY.AccAddress().String(), ExternalAddress: extAddr, DelegateAmount: sdkmath.NewInt(1), Online: true})
 	k.SetOracleAddrByBridgerAddr(s.Ctx, bridgerY.AccAddress(), oracle)
 	k.SetOracleAddrByExternalAddr(s.Ctx, extAddr, oracle)
@@ -2161,6 +2163,45 @@ func (h *hCtx) realTxs() {
 		h.out.Stats.Extra["honest_tx_log"] = log
 		h.out.ViolateWith("a confirm transaction signed by the oracle's bridger carrying the oracle's valid signature over the stored object was rejected (no confirmation can be stored)", []string{log})
 	}
+	// 4a. (round 5) message validation gates the handler for TRANSACTIONS: an oracle whose registry entry (written directly)
+	// spells its external address in lower case — the handler alone would accept its confirm (index, record and recovered
+	// signer all agree on that text); `ValidateBasic` (run by baseapp before any handler) admits only the canonical spelling
+	{
+		ext2, _ := crypto.GenerateKey()
+		low := strings.ToLower(crypto.PubkeyToAddress(ext2.PublicKey).Hex())
+		oracle2 := helpers.GenAccAddress()
+		z := bridgerZ.AccAddress().String()
+		os6 := &types.OracleSet{Nonce: 900020, Height: 3, Members: []types.BridgeValidator{{Power: 100, ExternalAddress: extAddr}}}
+		// registry and object are written through a transaction-free route on the finalize state, then committed with an empty block
+		fctx := s.App.GetContextForFinalizeBlock(nil)
+		k.SetOracle(fctx, types.Oracle{OracleAddress: oracle2.String(), BridgerAddress: z, ExternalAddress: low, DelegateAmount: sdkmath.NewInt(1), Online: true})
+		k.SetOracleAddrByBridgerAddr(fctx, bridgerZ.AccAddress(), oracle2)
+		k.SetOracleAddrByExternalAddr(fctx, low, oracle2)
+		k.StoreOracleSet(fctx, os6)
+		cp6, _ := os6.GetCheckpoint(gid)
+		sig6, _ := types.NewEthereumSignature(cp6, ext2)
+		m6 := &types.MsgOracleSetConfirm{Nonce: os6.Nonce, BridgerAddress: z, ExternalAddress: low, Signature: hex.EncodeToString(sig6), ChainName: name}
+		// in-process, the handler alone (on a branch): accepted?
+		bctx, _ := fctx.CacheContext()
+		inproc := hx.Try(func() error { return k.ConfirmHandler(bctx, m6) })
+		if strings.HasPrefix(inproc, "err:") {
+			inproc = errKind(fmt.Errorf("%s", inproc[4:]))
+		}
+		h.out.Count("tx:noncanonical-external:handler-alone=" + inproc)
+		code, _ := deliver(bridgerZ, m6)
+		h.out.Count(fmt.Sprintf("tx:noncanonical-external:code=%d", code))
+		if k.GetOracleSetConfirm(s.App.GetContextForFinalizeBlock(nil), os6.Nonce, oracle2) != nil {
+			h.out.ViolateWith("a confirm transaction naming a non-canonical spelling of the external address (message validation must reject it: the confirmation would be filed and de-duplicated under a second text for one address) stored a confirmation",
+				[]string{"registry entry with lower-case external address; tx MsgOracleSetConfirm{external_address: lower-case hex, valid signature} signed by the oracle's bridger"})
+		}
+		// an empty signature text never reaches the handler either
+		m7 := &types.MsgOracleSetConfirm{Nonce: os6.Nonce, BridgerAddress: y, ExternalAddress: extAddr, Signature: "", ChainName: name}
+		code, _ = deliver(bridgerY, m7)
+		h.out.Count(fmt.Sprintf("tx:empty-signature:code=%d", code))
+		if code == 0 {
+			h.out.ViolateWith("a confirm transaction with an empty signature text was accepted", []string{"tx MsgOracleSetConfirm{signature: \"\"} signed by the oracle's bridger"})
+		}
+	}
 	s.Ctx = s.App.GetContextForFinalizeBlock(nil)
 	// 5. in-process only (not a transaction): the router called with a wrapper whose Any was built in memory.  The wrapper's
 	// bridger_address is never compared with the inner one; recorded, not a violation (no transaction reaches this).
@@ -2241,6 +2282,7 @@ func TestC12(t *testing.T) {
 		for _, c := range chains {
 			h.timeoutStream(c)
 			h.buildStream(c)
+			h.vbStream(c)
 		}
 		h.populateCluster(chains[0], chains[1])
 		if rng.Intn(2) == 0 {
@@ -2276,10 +2318,15 @@ func TestC12(t *testing.T) {
 				h.randomRemove(chains[ci])
 			case r < 9:
 				h.editBridger(chains[ci])
+			case r < 13:
+				h.discardedBranch(chains[ci])
 			default:
 				h.randomConfirm(chains[ci], others)
 			}
 		}
+		// systematic: one discarded branch on the chain of this sequence's turn
+		h.discardedBranch(chains[q%len(chains)])
+		h.aliasPair(chains[(q+1)%len(chains)])
 		for _, c := range chains {
 			h.verifyAll(c)
 		}
